@@ -16,35 +16,35 @@ NOTE = ("Trusted: go/ssa translation and the engine's Go semantics (A-SSA), solv
         "history-induction meta-argument; all listed per run in evidence 'assumptions'. Functions of the property's anchor files that "
         "are not yet under contract are outside the claim: %s")
 CLAIMED = {
- "C01": (GENERIC % "HashMap, HashBidiMap, LinkedHashMap, TreeMap (by delegation), TreeBidiMap (all operations incl. Put), RedBlackTree (every operation incl. Remove verified against ghost rank/sequence), AVLTree (Get/Clear/Keys/Values; Put, whose recursive driver is verified in the thorough tier and assumed in the quick tier), BTree (construction, in-node search, root split, Clear/Size/Empty). Bounded stand-in (labelled bounded in the evidence, never counted as proved): RedBlackTree.Remove, AVLTree Put/Remove and all BTree tree-level operations are executed on every Put/Remove history of a stated small scope against a model map after every step.",
-         NOTE % "the deductive claim does not cover AVL Remove and the BTree tree-level mutators (bounded stand-in only); RedBlackTree.Remove's package-internal colour precondition is not checked at the wrappers' call sites (it is proved to be preserved by every tree operation).", "DESIGN.md §4 C01"),
- "C02": (GENERIC % "RedBlackTree and AVLTree navigation (Left/Right/Floor/Ceiling/Get over a ghost in-order node sequence with strictly ascending keys as invariant), their iterators and Keys/Values, RedBlackTree.Put preserving order, TreeMap (Min/Max/Floor/Ceiling/Keys/Values), TreeSet.Values, TreeBidiMap Keys/Values.",
-         NOTE % "AVL and B-tree mutators (order after those operations is checked by the bounded stand-in only: sorted Keys(), Floor/Ceiling/Left/Right against the model after every step); B-tree navigation.", "DESIGN.md §4 C02"),
+ "C01": (GENERIC % "HashMap, HashBidiMap, LinkedHashMap, TreeMap (by delegation), TreeBidiMap (all operations incl. Put), RedBlackTree (every operation incl. Remove verified against ghost rank/sequence), AVLTree (Get/Clear/Keys/Values; Put, whose recursive driver is verified in the thorough tier and assumed in the quick tier), BTree (construction, in-node search, root split, Clear/Size/Empty, and - against a tree-level ghost invariant - Get/GetNode/searchRecursively/Keys/Values). Bounded stand-in (labelled bounded in the evidence, never counted as proved): RedBlackTree.Remove, AVLTree Put/Remove and BTree Put/Remove (their contracts are assumed, `trusted`) are executed on every Put/Remove history of a stated small scope against a model map after every step.",
+         NOTE % "the deductive claim does not cover AVL Remove and the BTree mutators Put/Remove (assumed contracts, backed by the bounded stand-in only); RedBlackTree.Remove's package-internal colour precondition is not checked at the wrappers' call sites (it is proved to be preserved by every tree operation).", "DESIGN.md §4 C01"),
+ "C02": (GENERIC % "RedBlackTree and AVLTree navigation (Left/Right/Floor/Ceiling/Get over a ghost in-order node sequence with strictly ascending keys as invariant), their iterators and Keys/Values, RedBlackTree.Put preserving order, TreeMap (Min/Max/Floor/Ceiling/Keys/Values), TreeSet.Values, TreeBidiMap Keys/Values; BTree Left/Right (the leaf holding the first / last position), iterator and Keys/Values in position order over the tree-level ghost invariant (strictly ascending keys).",
+         NOTE % "AVL and B-tree mutators (order after those operations is checked by the bounded stand-in only: sorted Keys(), Floor/Ceiling/Left/Right against the model after every step); the interface-typed LeftKey/RightKey/LeftValue/RightValue of the B-tree are proved panic-free and pure only (their value is checked by the stand-in).", "DESIGN.md §4 C02"),
  "C03": (GENERIC % "ArrayList, SinglyLinkedList and DoublyLinkedList: every operation named by the statement (Add/Append/Prepend/Insert/Remove/Set/Swap/Sort/Clear/Get/IndexOf/Contains/Size/Values) against one sequence specification, linked lists through a ghost node sequence.",
          NOTE % "ArrayList.Sort's sortedness and permutation clauses rest on the assumed slices.SortFunc contract (the list's own obligations — frame, length, short lists untouched — are proved).", "DESIGN.md §4 C03"),
  "C04": (GENERIC % "HashSet, LinkedHashSet, TreeSet: Add/Remove/Contains/Clear/Size/Values.", NOTE % "nothing of the three sets.", "DESIGN.md §4 C04"),
  "C05": (GENERIC % "CircularBuffer (all capacities c>=1 and all wrap-around positions symbolically), ArrayStack, ArrayQueue, LinkedListStack, LinkedListQueue.",
          NOTE % "none of the five containers.", "DESIGN.md §4 C05"),
  "C06": (GENERIC % "BinaryHeap Push (single and bulk/Floyd heapify), Pop, Peek, Clear with heap order as invariant, minimality by an induction lemma, and the multiset clause through ghost permutations; PriorityQueue by delegation.",
-         NOTE % "the heap iterator's Value() (level-wise k-th smallest) is only proved safe, terminating and pure, not functionally specified (Values() is defined by it).", "DESIGN.md §4 C06"),
+         NOTE % "the heap iterator's Value() (level-wise k-th smallest) is proved safe, terminating and pure deductively; that Values()/iteration are a permutation of the contents with the Peek element first (a relation between Value() results at different indices, also among equal-comparing elements) is decided by a bounded stand-in only (labelled bounded).", "DESIGN.md §4 C06"),
  "C08": (GENERIC % "all 18 iterator types: array list/stack/queue, ring, both linked lists, linked-list stack/queue, linked hash map/set, red-black tree, AVL tree, tree map/set/bidimap, binary heap and priority queue (cursor rules; their Value() is the level-wise order by definition) are proved as cursors over positions -1..n: Next/Prev saturate, Begin/End/First/Last jump, NextTo/PrevTo stop at the nearest match; the B-tree iterator is covered by the bounded stand-in only.",
-         NOTE % "the B-tree iterator (bounded stand-in only: forward, backward and direction reversal at every position incl. both sentinels on every tree of the scope); the stop rule of NextTo/PrevTo for the heap iterators is stated over positions only.", "DESIGN.md §4 C08"),
+         NOTE % "the B-tree iterator is now verified deductively (Next/Prev descend and climb by in-node search of the current key; cursor rules over the ghost position of the entry) given the tree invariant that the assumed Put/Remove contracts provide, and additionally exercised by the bounded stand-in; the stop rule of NextTo/PrevTo for the heap iterators is stated over positions only.", "DESIGN.md §4 C08"),
  "C09": (GENERIC % "LinkedHashMap and LinkedHashSet: the key sequence of the ordering list (ghost rank per key) changes exactly as the statement says under Put/Add/Remove/Clear; Keys/Values/iterator read that sequence.",
          NOTE % "ToJSON order (C11), Each (C14).", "DESIGN.md §4 C09"),
  "C10": (GENERIC % "HashBidiMap and TreeBidiMap, all operations (Put/Get/GetKey/Remove/Clear/Size/Keys/Values): the two inner maps are mutual inverses up to the comparators' equivalences as a representation invariant; TreeBidiMap.Put is proved through intermediate-state lemmas.",
          NOTE % "nothing of the two maps.", "DESIGN.md §4 C10"),
  "C11": (GENERIC % "ToJSON/MarshalJSON and FromJSON/UnmarshalJSON of 17 containers (three lists, three sets, four stack/queue wrappers, ring, heap, priority queue, hash map, red-black tree, tree map, hash bidimap) against a ghost model of encoding/json (content of a byte string as a function of the slice; Marshal attaches it, Unmarshal reads it): ToJSON yields an array/object whose content is the abstract view, FromJSON of that content yields the same view — the round trip is the composition of the two postconditions.",
-         NOTE % "A-JSON (the assumed contract of encoding/json, incl. JSON-representable elements); LinkedHashMap (two known findings: outside the verified subset and genuinely defective); BTree JSON; AVLTree JSON is verified over AVL Put (whose driver is verified in the thorough tier); TreeBidiMap.ToJSON is verified, the content of its FromJSON is not claimed.", "DESIGN.md §4 C11/C12"),
+         NOTE % "A-JSON (the assumed contract of encoding/json, incl. JSON-representable elements); LinkedHashMap (two known findings: outside the verified subset and genuinely defective; a bounded stand-in runs ToJSON/FromJSON on every Put/Remove history of a small scope so that other changes to these two functions are still reported); BTree ToJSON is verified, BTree FromJSON over the assumed Put contract; AVLTree JSON is verified over AVL Put (whose driver is verified in the thorough tier); TreeBidiMap.ToJSON is verified, the content of its FromJSON is not claimed.", "DESIGN.md §4 C11/C12"),
  "C12": (GENERIC % "FromJSON of the same 17 containers: on success the content is exactly what the document denotes (sets deduplicate, trees sort, ring keeps the last capacity-many values, heap order is restored, bidimap stays one-to-one) and the representation invariant holds (so every other contract applies afterwards, including after null, [] and {}); on error the abstract state is unchanged (atomicity).",
-         NOTE % "A-JSON; LinkedHashMap.FromJSON (known finding); BTree; AVLTree over AVL Put (driver verified in the thorough tier); for TreeBidiMap.FromJSON soundness, atomicity and null are proved, the loaded content is not claimed.", "DESIGN.md §4 C11/C12"),
+         NOTE % "A-JSON; LinkedHashMap.FromJSON (known finding; bounded stand-in for everything else about it); BTree.FromJSON over the assumed contracts of BTree Put (bounded stand-in); AVLTree over AVL Put (driver verified in the thorough tier); for TreeBidiMap.FromJSON soundness, atomicity and null are proved, the loaded content is not claimed.", "DESIGN.md §4 C11/C12"),
  "C13": (GENERIC % "HashSet, LinkedHashSet and TreeSet Intersection/Union/Difference: exact membership, operands unchanged (frame), result freshly allocated with the operands' comparator; identical-operand case included.",
          NOTE % "none of the nine operations.", "DESIGN.md §4 C13"),
  "C14": (GENERIC % "Each (exact callback sequence through a ghost call log: the iterator's pairs at positions 0..n-1, in order, once each), Any/All/Find (exists / for-all / first match), Select (exactly the matching elements, original relative order via ghost position maps or ranks, same comparator) and Map on the three lists, TreeSet, LinkedHashSet, TreeMap, LinkedHashMap; Each/Any/All/Find on TreeBidiMap; receiver unchanged (frame) and result freshly allocated.",
          NOTE % "Map on sets/maps is proved in the direction 'every mapped element is in the result' (and size bound) only; TreeBidiMap.Map only soundness of the result, size bound and presence of the last mapped pair (a many-to-one f evicts, as repeated Put does).", "DESIGN.md §4 C14"),
- "C15": (GENERIC % "Size/Empty/Values/Keys/Clear agreement for every container under contract (all but the B-tree's tree-level observers), and String() of 18 containers: begins with the container's name (string constants decided by Go's own strings.HasPrefix, concatenation and TrimRight by axioms) and writes nothing.",
-         NOTE % "String() of RedBlackTree, AVLTree and BTree (recursive output through a *string parameter, outside the subset); the B-tree observers are covered by the bounded stand-in.", "DESIGN.md §4 C15"),
+ "C15": (GENERIC % "Size/Empty/Values/Keys/Clear agreement for every container under contract (incl. the B-tree's observers over the tree-level ghost invariant), and String() of 18 containers: begins with the container's name (string constants decided by Go's own strings.HasPrefix, concatenation and TrimRight by axioms) and writes nothing.",
+         NOTE % "String() of RedBlackTree, AVLTree and BTree (recursive output through a *string parameter / bytes.Buffer, outside the subset) is checked by the bounded stand-in only (name prefix, container unchanged).", "DESIGN.md §4 C15"),
  "C16": (GENERIC % "freshness of returned slices and ownership of stored slices (Owned two-state predicate) for every Values()/Keys() under contract; argument slices are only read (frame); containers.GetSortedValues/GetSortedValuesFunc sort the snapshot returned through the interface (assumed interface contract: Values() returns a fresh slice, which every implementation is proved to do) and have an empty frame.",
-         NOTE % "sortedness of GetSortedValues (slices.Sort on an ordered type parameter) is not stated; GetSortedValuesFunc's is, through the assumed slices.SortFunc contract.", "DESIGN.md §4 C16"),
+         NOTE % "sortedness of GetSortedValues / GetSortedValuesFunc rests on the assumed contracts of slices.Sort / slices.SortFunc (ascending under the ordered type's own order / the comparator); B-tree Keys()/Values() freshness is proved, their independence from later tree changes additionally checked by the bounded stand-in.", "DESIGN.md §4 C16"),
  "C17": (GENERIC % "no-panic (nil, index, slice bounds, division, make, nil-map, nil-func), explicit-panic reachability, loop variants and silence obligations for every function under contract so far.",
          NOTE % "functions not yet under contract (see evidence); integer overflow treated as mathematical.", "DESIGN.md §4 C17"),
  "C18": (GENERIC % "empty frame ('modifies nothing' proved at every store and call) for the read-only operations under contract so far; concurrency follows by the frame meta-argument.",
@@ -57,8 +57,8 @@ CLAIMED["C07"] = (
  "DESIGN.md §4 C07")
 CATEGORY = {"C07": "exploration"}
 TECHNIQUE = {"C07": "bounded stand-in for contract-based deductive verification (exhaustive small-scope execution of the real code against shape predicates and comparator-call bounds); deductive obligations (go/ssa VCs, z3/cvc5) only for the B-tree fill arithmetic, in-node search and root split"}
-BOUNDED = {"C01", "C02", "C08", "C15", "C17"}
-BOUNDED_NOTE = "; plus a bounded stand-in (exhaustive small-scope execution, labelled bounded, not counted as proved) for the tree mutators outside the engine's reach"
+BOUNDED = {"C01", "C02", "C06", "C08", "C11", "C12", "C15", "C16", "C17", "C18"}
+BOUNDED_NOTE = "; plus a bounded stand-in (exhaustive small-scope execution, labelled bounded, not counted as proved) for the functions outside the engine's reach (tree mutators behind assumed contracts, String() of the trees, LinkedHashMap JSON, heap Values() permutation)"
 
 NOT_YET = "not claimed yet: the contracts for this property are still being written in this session (the technique applies; see DESIGN.md §4)"
 
